@@ -613,7 +613,7 @@ def run_impl(scn):
 PRIORITY = ['stop_exactly_started', 'cleanup_error_isolated', 'async_before_sync', 'stop_async_awaited_bounded',
             'simulation_finished', 'no_restart_no_modify', 'no_live_task_at_end', 'no_pending_timer',
             'no_live_init_task', 'stop_data_last', 'event_shutdown_documented', 'no_live_helper_task']
-KNOWN_SHAPES = ('event_to_never_started_fsm', 'outputasync_not_initialized')
+KNOWN_SHAPES = ('outputasync_not_initialized',)
 
 
 def oracle(scn, res):
